@@ -172,7 +172,7 @@ func (f *frame) get(v ssa.Value) Val {
 		}
 		return Val{T: c.fresh("const", c.sortOf(t)), Typ: t}
 	case *ssa.Global:
-		return Val{P: &Ptr{Kind: PGlobal, Name: "G$" + smtIdent(k.Pkg.Pkg.Path()+"."+k.Name()), Elem: k.Type().(*types.Pointer).Elem()}, Typ: k.Type()}
+		return Val{P: &Ptr{Kind: PGlobal, Name: "G$" + smtIdent(k.Pkg.Pkg.Path()+"."+k.Name()), Elem: k.Type().(*types.Pointer).Elem(), Glob: k}, Typ: k.Type()}
 	case *ssa.Function:
 		return Val{T: c.funcRef(k), Typ: k.Type(), Fn: k}
 	case *ssa.Builtin:
@@ -261,6 +261,11 @@ func (f *frame) load(s State, p Val) Val {
 			}
 			return Val{T: c.mkStruct(elem, st, fs), Typ: elem}
 		}
+		if arr, ok := elem.Underlying().(*types.Array); ok {
+			// an array object lives in the element heap, like the backing store of a slice
+			_, h := c.elemHeap(s, arr.Elem())
+			return Val{T: Select(h, p.T), Typ: elem}
+		}
 		_, h := c.cellHeap(s, elem)
 		return Val{T: Select(h, p.T), Typ: elem}
 	}
@@ -287,6 +292,10 @@ func (f *frame) load(s State, p Val) Val {
 		if !ok {
 			t = c.heapVar(s, p.P.Name, c.sortOf(p.P.Elem))
 		}
+		if g, isG := p.P.Glob.(*ssa.Global); isG && c.nonNilErrorGlobal(g) {
+			// derived from the SSA: initialised once with a non-nil value, never reassigned
+			c.addHyp(Not(Eq(t, Var("iface_nil", c.ifaceSort()))))
+		}
 		return Val{T: t, Typ: p.P.Elem}
 	}
 	panic("load: bad pointer")
@@ -301,6 +310,11 @@ func (f *frame) store(s State, p Val, v *Term) {
 				n, h := c.fieldHeap(s, elem, st, i)
 				s[n] = Store(h, p.T, c.structField(elem, st, v, i))
 			}
+			return
+		}
+		if arr, ok := elem.Underlying().(*types.Array); ok {
+			n, h := c.elemHeap(s, arr.Elem())
+			s[n] = Store(h, p.T, v)
 			return
 		}
 		n, h := c.cellHeap(s, elem)
@@ -1176,11 +1190,13 @@ func (f *frame) sliceOp(x *ssa.Slice, pc *Term, st State) {
 		// coherent we move the array contents into the element heap at creation.
 		ref := f.term(base)
 		if base.P != nil {
-			f.c.note("slice of an array field/cell: contents copied into the element heap at slicing time (later writes through the array are not seen through the slice)")
+			// an array that is a struct field: its contents are copied into the
+			// element heap when it is sliced
+			f.c.note("slice of an array-typed struct field: contents copied into the element heap at slicing time (later writes through the field are not seen through the slice)")
+			hn, h := c.elemHeap(st, arr.Elem())
+			cur := f.load(st, base)
+			st[hn] = Store(h, ref, cur.T)
 		}
-		hn, h := c.elemHeap(st, arr.Elem())
-		cur := f.load(st, base)
-		st[hn] = Store(h, ref, cur.T)
 		newcap := c.arith(token.SUB, n, lo, types.Typ[types.Int])
 		f.define(x, Val{T: c.mkSlice(ref, lo, c.arith(token.SUB, hi, lo, types.Typ[types.Int]), newcap), Typ: x.Type()})
 	case *types.Basic: // string
